@@ -57,6 +57,10 @@ func NewWriter() *Writer {
 					select {
 					case pck, ok := <-w.in:
 						if !ok {
+							// closed: what is already queued (the drop notices of Close among it) is still owed
+							for _, pck := range buffer {
+								w.out <- pck
+							}
 							return
 						}
 						buffer = append(buffer, pck)
